@@ -97,11 +97,118 @@ Proof.
   rewrite Forall_forall. intros y Hy. apply in_seq in Hy. lia.
 Qed.
 
+(* ------------------------------------------------------------------ Mesh._sort_entities on one column *)
+Lemma dfd_cons2 x y r : drop_first_dup (x :: y :: r)
+  = if x =? y then Some (x :: r) else option_map (cons x) (drop_first_dup (y :: r)).
+Proof. reflexivity. Qed.
+
+Lemma dfd_none l : NoDup l -> drop_first_dup l = None.
+Proof.
+  induction l as [|x [|y r] IH]; intros H; try reflexivity. rewrite dfd_cons2.
+  inversion H as [|? ? Hx Hr]; subst. destruct (Nat.eqb_spec x y) as [->|_]; [exfalso; apply Hx; now left|].
+  now rewrite (IH Hr).
+Qed.
+
+Lemma dfd_spec l : forall l', drop_first_dup l = Some l' ->
+  hd 0 l' = hd 0 l /\ exists y, Permutation l (y :: l') /\ In y l'.
+Proof.
+  induction l as [|x [|y r] IH]; intros l' H; try discriminate. rewrite dfd_cons2 in H.
+  destruct (Nat.eqb_spec x y) as [->|Hne].
+  - inversion H; subst. split; [reflexivity|]. exists y. split; [apply Permutation_refl | now left].
+  - destruct (drop_first_dup (y :: r)) as [r'|] eqn:E; simpl in H; [|discriminate]. inversion H; subst.
+    destruct (IH r' eq_refl) as [_ [z [Hp Hz]]]. split; [reflexivity|]. exists z. split.
+    + eapply Permutation_trans; [apply perm_skip, Hp | apply perm_swap].
+    + now right.
+Qed.
+
+Lemma sort_entity_nodup l : NoDup l -> sort_entity l = isort l.
+Proof.
+  intros H. unfold sort_entity. rewrite dfd_none; [reflexivity|].
+  eapply Permutation_NoDup; [apply isort_perm | exact H].
+Qed.
+
+Lemma sort_entity_in l x : In x (sort_entity l) <-> In x l.
+Proof.
+  unfold sort_entity. destruct (drop_first_dup (isort l)) as [s'|] eqn:E; [|apply isort_in].
+  destruct (dfd_spec _ _ E) as [Hh [y [Hp Hy]]]. rewrite <- (isort_in l x). split.
+  - intros [H|H].
+    + subst x. rewrite <- Hh. destruct s' as [|z s']; [destruct Hy|]. simpl.
+      eapply Permutation_in; [apply Permutation_sym, Hp | right; now left].
+    + eapply Permutation_in; [apply Permutation_sym, Hp | now right].
+  - intros H. apply (Permutation_in _ Hp) in H. destruct H as [<-|H]; right; assumption.
+Qed.
+
+Lemma sort_entity_sorted l : StronglySorted le (sort_entity l).
+Proof.
+  unfold sort_entity. pose proof (isort_strongly_sorted l) as Hs.
+  destruct (drop_first_dup (isort l)) as [s'|] eqn:E; [|exact Hs].
+  assert (G : forall s t, StronglySorted le s -> drop_first_dup s = Some t -> StronglySorted le t).
+  { clear. induction s as [|x [|y r] IH]; intros t Hs H; try discriminate. rewrite dfd_cons2 in H.
+    inversion Hs as [|? ? Hs' Hf]; subst. destruct (Nat.eqb_spec x y) as [->|Hne].
+    - inversion H; subst. exact Hs'.
+    - destruct (drop_first_dup (y :: r)) as [r'|] eqn:E; simpl in H; [|discriminate]. inversion H; subst.
+      constructor; [now apply IH|]. destruct (dfd_spec _ _ E) as [_ [z [Hp Hz]]].
+      rewrite Forall_forall in *. intros w Hw. apply Hf. eapply Permutation_in; [apply Permutation_sym, Hp | now right]. }
+  pose proof (G _ _ Hs E) as Hs'. destruct (dfd_spec _ _ E) as [Hh _]. constructor; [exact Hs'|].
+  rewrite <- Hh. destruct s' as [|z s']; [constructor|]. simpl. inversion Hs' as [|? ? _ Hf]; subst.
+  constructor; [lia|]. rewrite Forall_forall in *. intros w Hw. specialize (Hf w Hw). lia.
+Qed.
+
+(* a padded tuple (distinct vertices, one of them repeated at the end: the wedge's [0, 1, 2, 0]) gets the key
+   [smallest, sorted vertices ...], whatever vertex is repeated *)
+Lemma sort_entity_padded l x : NoDup l -> In x l ->
+  sort_entity (l ++ [x]) = hd 0 (isort l) :: isort l.
+Proof.
+  intros Hnd Hx. unfold sort_entity.
+  destruct (drop_first_dup (isort (l ++ [x]))) as [s'|] eqn:E.
+  - destruct (dfd_spec _ _ E) as [Hh [y [Hp Hy]]].
+    assert (Hperm : Permutation (x :: l) (y :: s')).
+    { eapply Permutation_trans; [|exact Hp]. eapply Permutation_trans; [|apply isort_perm].
+      apply Permutation_cons_append. }
+    assert (Hyx : y = x).
+    { destruct (Nat.eq_dec y x) as [|Hne]; [assumption|]. exfalso.
+      assert (H1 : In y (x :: l)) by (eapply Permutation_in; [apply Permutation_sym, Hperm | now left]).
+      destruct H1 as [H1|H1]; [congruence|].
+      (* y occurs twice in y :: s' but once in x :: l *)
+      assert (Hc : count_occ Nat.eq_dec (x :: l) y = count_occ Nat.eq_dec (y :: s') y) by (now apply Permutation_count_occ).
+      simpl in Hc. destruct (Nat.eq_dec x y) as [e|_]; [congruence|]. destruct (Nat.eq_dec y y) as [_|n]; [|congruence].
+      assert (count_occ Nat.eq_dec l y = 1) by (apply NoDup_count_occ'; assumption).
+      assert (count_occ Nat.eq_dec s' y > 0) by (now apply count_occ_In). lia. }
+    subst y. apply Permutation_cons_inv in Hperm.
+    assert (Es : s' = isort l).
+    { apply sorted_perm_eq; [| apply isort_strongly_sorted |].
+      - assert (G : StronglySorted le (hd 0 (isort (l ++ [x])) :: s')).
+        { pose proof (sort_entity_sorted (l ++ [x])) as S. unfold sort_entity in S. now rewrite E in S. }
+        now inversion G.
+      - eapply Permutation_trans; [apply Permutation_sym, Hperm | apply isort_perm]. }
+    rewrite <- Hh, Es. reflexivity.
+  - exfalso. assert (Hn : NoDup (isort (l ++ [x]))).
+    { clear -E. remember (isort (l ++ [x])) as s eqn:Hs. pose proof (isort_strongly_sorted (l ++ [x])) as S. rewrite <- Hs in S.
+      clear Hs. induction s as [|a [|b r] IH]; [constructor | constructor; [intros [] | constructor] |].
+      rewrite dfd_cons2 in E. destruct (Nat.eqb_spec a b) as [|Hne]; [discriminate|].
+      destruct (drop_first_dup (b :: r)) eqn:E'; simpl in E; [discriminate|]. inversion S as [|? ? S' F]; subst.
+      constructor; [|now apply IH]. rewrite Forall_forall in F. intros [Hab|Hin]; [congruence|].
+      inversion S' as [|? ? _ F']; subst. rewrite Forall_forall in F'. specialize (F' a Hin).
+      assert (b <= a) by exact F'. assert (a <= b) by (apply F; now left). lia. }
+    assert (Hn' : NoDup (l ++ [x])) by (eapply Permutation_NoDup; [apply Permutation_sym, isort_perm | exact Hn]).
+    apply NoDup_remove_2 in Hn'. apply Hn'. rewrite app_nil_r. exact Hx.
+Qed.
+
+(* the key of a padded triangle depends only on its vertex SET *)
+Theorem padded_key_depends_on_vertex_set l1 l2 x1 x2 :
+  NoDup l1 -> NoDup l2 -> In x1 l1 -> In x2 l2 -> (forall v, In v l1 <-> In v l2) ->
+  sort_entity (l1 ++ [x1]) = sort_entity (l2 ++ [x2]).
+Proof.
+  intros N1 N2 H1 H2 Hs. rewrite !sort_entity_padded by assumption.
+  assert (E : isort l1 = isort l2) by (apply isort_of_perm, NoDup_Permutation; assumption).
+  now rewrite E.
+Qed.
+
 (* ------------------------------------------------------------------ build_entities *)
-Definition keys (cells indices : list (list nat)) : list (list nat) := map isort (raw_keys cells indices).
+Definition keys (cells indices : list (list nat)) : list (list nat) := map sort_entity (raw_keys cells indices).
 (* the sorted vertex tuple of local slot s of cell e *)
 Definition key (cells indices : list (list nat)) (s e : nat) : list nat :=
-  isort (slotv (nth s indices []) (nth e cells [])).
+  sort_entity (slotv (nth s indices []) (nth e cells [])).
 Definition t2f_at (cells indices : list (list nat)) (s e : nat) : nat :=
   nth e (nth s (mapping cells indices) []) 0.
 
@@ -124,7 +231,7 @@ Section Entities.
   Lemma keys_nth s e : s < ns -> e < nt -> nth (s * nt + e) ks [] = key cells indices s e.
   Proof.
     intros Hs He. unfold keys, key.
-    rewrite (nth_map_d isort _ _ [] []) by (rewrite raw_keys_length; nia).
+    rewrite (nth_map_d sort_entity _ _ [] []) by (rewrite raw_keys_length; nia).
     now rewrite raw_keys_nth.
   Qed.
 
@@ -191,13 +298,13 @@ Section Entities.
     - apply (uniq_strongly_sorted _ lex_cmp lex_cmp_antisym lex_cmp_trans).
     - apply (uniq_NoDup _ lex_cmp lex_cmp_eq lex_cmp_antisym lex_cmp_trans).
     - rewrite Forall_forall. intros c Hc. rewrite <- entities_true in Hc. apply in_entities in Hc.
-      destruct Hc as [s [e [_ [_ ->]]]]. apply isort_strongly_sorted.
+      destruct Hc as [s [e [_ [_ ->]]]]. apply sort_entity_sorted.
   Qed.
 
   (* sort=False (hexahedra): column j is the UNSORTED slot tuple of the first (slot, cell) that spans entity j *)
   Theorem entities_unsorted_spec j : j < length E ->
     length (entities false cells indices) = length E /\
-    isort (nth j (entities false cells indices) []) = nth j E [] /\
+    sort_entity (nth j (entities false cells indices) []) = nth j E [] /\
     exists s e, s < ns /\ e < nt /\ t2f_at cells indices s e = j /\
       nth j (entities false cells indices) [] = slotv (nth s indices []) (nth e cells []) /\
       forall s' e', s' < ns -> e' < nt -> s' * nt + e' < s * nt + e -> t2f_at cells indices s' e' <> j.
@@ -214,8 +321,8 @@ Section Entities.
     fold k. rewrite keys_length in Hb. destruct (pos_decomp _ _ _ Hb) as [H1 [H2 H3]].
     assert (Hraw : nth k (raw_keys cells indices) [] = slotv (nth (k / nt) indices []) (nth (k mod nt) cells [])).
     { rewrite H3 at 1. now apply raw_keys_nth. }
-    assert (Hk : nth k ks [] = isort (nth k (raw_keys cells indices) [])).
-    { unfold keys. apply (nth_map_d isort _ _ [] []). rewrite raw_keys_length. lia. }
+    assert (Hk : nth k ks [] = sort_entity (nth k (raw_keys cells indices) [])).
+    { unfold keys. apply (nth_map_d sort_entity _ _ [] []). rewrite raw_keys_length. lia. }
     split; [now rewrite <- Hk|].
     exists (k / nt), (k mod nt). repeat split; try assumption.
     - rewrite t2f_at_eq by assumption. rewrite <- H3.
@@ -458,15 +565,15 @@ Qed.
 Lemma slot_keys_differ c ix1 ix2 : NoDup c ->
   (forall i, In i ix1 -> i < length c) -> (forall i, In i ix2 -> i < length c) ->
   subset ix1 ix2 && subset ix2 ix1 = false ->
-  isort (slotv ix1 c) <> isort (slotv ix2 c).
+  sort_entity (slotv ix1 c) <> sort_entity (slotv ix2 c).
 Proof.
   intros Hnd B1 B2 Hsub Heq.
   assert (G : forall a b, (forall i, In i a -> i < length c) -> (forall i, In i b -> i < length c) ->
-              isort (slotv a c) = isort (slotv b c) -> subset a b = true).
+              sort_entity (slotv a c) = sort_entity (slotv b c) -> subset a b = true).
   { intros a b Ba Bb Hab. apply subset_spec. intros i Hi.
-    assert (Hin : In (nth i c 0) (isort (slotv a c))).
-    { apply isort_in. unfold slotv. apply in_map_iff. now exists i. }
-    rewrite Hab in Hin. apply (proj1 (isort_in _ _)) in Hin. unfold slotv in Hin. apply in_map_iff in Hin.
+    assert (Hin : In (nth i c 0) (sort_entity (slotv a c))).
+    { apply sort_entity_in. unfold slotv. apply in_map_iff. now exists i. }
+    rewrite Hab in Hin. apply (proj1 (sort_entity_in _ _)) in Hin. unfold slotv in Hin. apply in_map_iff in Hin.
     destruct Hin as [j [Hj Hjb]].
     assert (j = i). { apply (proj1 (NoDup_nth c 0) Hnd); [now apply Bb | now apply Ba | exact Hj]. }
     now subst. }
@@ -585,6 +692,10 @@ Proof.
 Qed.
 
 (* ------------------------------------------------------------------ f2e numbers mesh.edges (triangular facets) *)
+(* plain-sort versions of keys / entities: what build_entities computes when no slot tuple has a repeated vertex *)
+Definition keys0 (cells indices : list (list nat)) : list (list nat) := map isort (raw_keys cells indices).
+Definition ent0 (cells indices : list (list nat)) : list (list nat) := uniq lex_cmp (keys0 cells indices).
+
 Lemma same2_perm a b : same2 a b = true -> Permutation a b.
 Proof.
   unfold same2. intros H. apply orb_true_iff in H. destruct H as [H|H]; apply nats_eqb_eq in H; subst.
@@ -630,25 +741,25 @@ Proof.
   Transparent isort.
 Qed.
 
-Lemma in_keys C idx x : In x (keys C idx) <-> exists ix c, In ix idx /\ In c C /\ x = isort (slotv ix c).
+Lemma in_keys C idx x : In x (keys0 C idx) <-> exists ix c, In ix idx /\ In c C /\ x = isort (slotv ix c).
 Proof.
-  unfold keys, raw_keys. rewrite in_map_iff. split.
+  unfold keys0, raw_keys. rewrite in_map_iff. split.
   - intros [k [Hx Hk]]. apply in_flat_map in Hk. destruct Hk as [ix [Hix Hk]]. apply in_map_iff in Hk.
     destruct Hk as [c [Hk Hc]]. exists ix, c. subst. now repeat split.
   - intros [ix [c [Hix [Hc ->]]]]. exists (slotv ix c). split; [reflexivity|]. apply in_flat_map. exists ix.
     split; [exact Hix|]. apply in_map_iff. now exists c.
 Qed.
 
-Lemma in_entities' C idx x : In x (entities true C idx) <-> In x (keys C idx).
-Proof. rewrite entities_true. apply (uniq_in _ lex_cmp lex_cmp_eq). Qed.
+Lemma in_entities' C idx x : In x (ent0 C idx) <-> In x (keys0 C idx).
+Proof. apply (uniq_in _ lex_cmp lex_cmp_eq). Qed.
 
-Theorem f2e_numbers_mesh_edges cells facet_idx edge_idx bnd :
+Theorem f2e_numbers_mesh_edges0 cells facet_idx edge_idx bnd :
   bnd = [[0; 1]; [1; 2]; [0; 2]] ->
   Forall (fun fs => length fs = 3) facet_idx ->
   compose_ok facet_idx bnd edge_idx = true ->
-  entities true (entities true cells facet_idx) bnd = entities true cells edge_idx.
+  ent0 (ent0 cells facet_idx) bnd = ent0 cells edge_idx.
 Proof.
-  intros Hb Hlen Hok. apply entities_ext. intros x.
+  intros Hb Hlen Hok. apply (uniq_ext _ lex_cmp lex_cmp_eq lex_cmp_antisym lex_cmp_trans). intros x.
   unfold compose_ok in Hok. apply andb_true_iff in Hok. destruct Hok as [Ok1 Ok2].
   rewrite forallb_forall in Ok1, Ok2. rewrite Forall_forall in Hlen.
   assert (Htp : forall q, In x (map (fun b => isort (slotv b q)) bnd) <-> In x (tri_pairs q)) by (intros q; rewrite Hb; reflexivity).
@@ -678,4 +789,69 @@ Proof.
     apply Htp in Hin. apply in_map_iff in Hin. destruct Hin as [b [Heq Hbin]].
     exists b, (isort (slotv fs c)). split; [exact Hbin|]. split; [|now symmetry].
     apply in_entities', in_keys. exists fs, c. now repeat split.
+Qed.
+
+(* bridge: with pairwise distinct vertices in every slot tuple, build_entities IS the plain-sort version *)
+Lemma entities_is_ent0 cells idx :
+  (forall ix c, In ix idx -> In c cells -> NoDup (slotv ix c)) -> entities true cells idx = ent0 cells idx.
+Proof.
+  intros H. rewrite entities_true. unfold ent0, keys, keys0. f_equal. apply map_ext_in. intros k Hk.
+  unfold raw_keys in Hk. apply in_flat_map in Hk. destruct Hk as [ix [Hix Hk]]. apply in_map_iff in Hk.
+  destruct Hk as [c [<- Hc]]. apply sort_entity_nodup. now apply H.
+Qed.
+
+Lemma slotv_NoDup ix c : NoDup c -> NoDup ix -> (forall i, In i ix -> i < length c) -> NoDup (slotv ix c).
+Proof.
+  intros Hc Hix Hb. unfold slotv. induction ix as [|i ix IH]; simpl; constructor.
+  - intros Hin. apply in_map_iff in Hin. destruct Hin as [j [Hj Hjin]]. inversion Hix as [|? ? Hni _]; subst.
+    apply Hni. assert (j = i); [|now subst].
+    apply (proj1 (NoDup_nth c 0) Hc); [apply Hb; now right | apply Hb; now left | exact Hj].
+  - inversion Hix; subst. apply IH; [assumption|]. intros j Hj. apply Hb. now right.
+Qed.
+
+(* tetrahedral-type tables (triangular facets whose three sides are the boundary slots) and cells with pairwise distinct
+   vertices: the edge array rebuilt from the facets IS the edge array of the cells *)
+Theorem f2e_numbers_mesh_edges cells facet_idx edge_idx bnd nn :
+  bnd = [[0; 1]; [1; 2]; [0; 2]] ->
+  Forall (fun fs => length fs = 3 /\ NoDup fs /\ forall i, In i fs -> i < nn) facet_idx ->
+  Forall (fun es => NoDup es /\ forall i, In i es -> i < nn) edge_idx ->
+  compose_ok facet_idx bnd edge_idx = true ->
+  Forall (fun c => NoDup c /\ length c = nn) cells ->
+  entities true (entities true cells facet_idx) bnd = entities true cells edge_idx.
+Proof.
+  intros Hb Hf He Hok Hc. rewrite Forall_forall in Hf, He, Hc.
+  assert (E1 : entities true cells facet_idx = ent0 cells facet_idx).
+  { apply entities_is_ent0. intros ix c Hix Hcin. destruct (Hf ix Hix) as [_ [N B]]. destruct (Hc c Hcin) as [Nc Lc].
+    apply slotv_NoDup; [exact Nc | exact N | now rewrite Lc]. }
+  assert (E2 : entities true cells edge_idx = ent0 cells edge_idx).
+  { apply entities_is_ent0. intros ix c Hix Hcin. destruct (He ix Hix) as [N B]. destruct (Hc c Hcin) as [Nc Lc].
+    apply slotv_NoDup; [exact Nc | exact N | now rewrite Lc]. }
+  assert (E3 : entities true (ent0 cells facet_idx) bnd = ent0 (ent0 cells facet_idx) bnd).
+  { apply entities_is_ent0. intros b F Hbin HF. apply in_entities', in_keys in HF. destruct HF as [fs [c [Hfs [Hcin ->]]]].
+    destruct (Hf fs Hfs) as [L [N B]]. destruct (Hc c Hcin) as [Nc Lc].
+    assert (NF : NoDup (isort (slotv fs c))).
+    { eapply Permutation_NoDup; [apply isort_perm|]. apply slotv_NoDup; [exact Nc | exact N | now rewrite Lc]. }
+    assert (LF : length (isort (slotv fs c)) = 3) by (rewrite isort_length; unfold slotv; now rewrite map_length).
+    subst bnd. apply slotv_NoDup; [exact NF | | rewrite LF].
+    - destruct Hbin as [<-|[<-|[<-|[]]]]; repeat constructor; simpl; intuition discriminate.
+    - intros i Hi. destruct Hbin as [<-|[<-|[<-|[]]]]; simpl in Hi; intuition lia. }
+  rewrite E1, E3, E2. apply f2e_numbers_mesh_edges0; [exact Hb | | exact Hok].
+  rewrite Forall_forall. intros fs Hfs. now apply Hf.
+Qed.
+
+(* a padded slot (three distinct local vertices, one of them repeated at the end) on cells with distinct vertices: the key depends
+   only on the vertex SET of the slot *)
+Theorem padded_slot_key_vertex_set c1 c2 tri1 x1 tri2 x2 :
+  NoDup c1 -> NoDup c2 -> NoDup tri1 -> NoDup tri2 -> In x1 tri1 -> In x2 tri2 ->
+  (forall i, In i tri1 -> i < length c1) -> (forall i, In i tri2 -> i < length c2) ->
+  (forall v, In v (slotv (tri1 ++ [x1]) c1) <-> In v (slotv (tri2 ++ [x2]) c2)) ->
+  sort_entity (slotv (tri1 ++ [x1]) c1) = sort_entity (slotv (tri2 ++ [x2]) c2).
+Proof.
+  intros N1 N2 T1 T2 I1 I2 B1 B2 Hs.
+  assert (E : forall tri x c, slotv (tri ++ [x]) c = slotv tri c ++ [nth x c 0]) by (intros; unfold slotv; now rewrite map_app).
+  assert (M : forall tri x c, In x tri -> In (nth x c 0) (slotv tri c)) by (intros tri x c H; unfold slotv; exact (in_map (fun i => nth i c 0) tri x H)).
+  rewrite !E in *. apply padded_key_depends_on_vertex_set; try (now apply slotv_NoDup); try (now apply M).
+  intros v. specialize (Hs v). rewrite !in_app_iff in Hs. simpl in Hs. split; intros Hv.
+  - destruct (proj1 Hs (or_introl Hv)) as [H|[<-|[]]]; [exact H | now apply M].
+  - destruct (proj2 Hs (or_introl Hv)) as [H|[<-|[]]]; [exact H | now apply M].
 Qed.
